@@ -226,6 +226,17 @@ Section CacheProofs.
     pose proof (G i ci ri Hi Hri) as G1. pose proof (G j cj rj Hj Hrj) as G2.
     rewrite (clookup_compat _ _ _ Hk) in G1. congruence.
   Qed.
+
+  (* with hashable arguments only, the cache with the uncached fallback is the cache *)
+  Lemma crunu_hashable (hashable : C -> bool) cs : (forall c, In c cs -> hashable c = true) ->
+    M_deco.crunu key keqb f hashable cs = crun cs.
+  Proof.
+    intros H. unfold M_deco.crunu, M_deco.crun.
+    assert (G : forall st, fold_left (M_deco.cstepu key keqb f hashable) cs st = fold_left cstep cs st).
+    { induction cs as [|c cs IH]; intros st; simpl; auto.
+      unfold M_deco.cstepu at 2. rewrite (H c) by (left; auto). apply IH. intros c' Hc'. apply H. right. auto. }
+    apply G.
+  Qed.
 End CacheProofs.
 
 (* ================================================================== getcallargs agrees with inspect.getcallargs *)
